@@ -1,8 +1,685 @@
-//! C15 runner (stub). Replace the body; keep the signature `pub fn run(args: &[String])`.
-#[allow(unused_imports)]
-use crate::common::{catch, each_line, opt_i64};
+//! C15 runner.
+//!
+//! `vharness run c15 table <repo>` — the known-good version table, extracted with `syn` from the
+//!     `match crate_name { .. }` of ProjectGenerator::add_rust_crate: JSON [[crate, spec-text], ..]
+//!     (+ {"error":..} if the function no longer has that shape).
+//! `vharness run c15 scan`  — stdin: one JSON {"src": incan source} per line.  Parses with the REAL
+//!     lexer/parser, runs the REAL detect_serde_usage / detect_async_usage / detect_web_usage and
+//!     cli::commands::collect_rust_crates, and prints the uniform tree of coq/C15/Model.v
+//!     ([kind, tag, label, [[slot, child]..]]) built from the real AST.  A node's trigger bits are the
+//!     real scanners' verdicts on that node alone (children removed) in a scanned position.
+//! `vharness run c15 build` — stdin: one JSON {"entry": file, "out": dir} per line.  Calls the real
+//!     cli::commands::build_file (a stub `cargo` must be first on PATH), then prints
+//!     `@@C15 {"ok","err","manifest","roots":[..],"mods":[..]}`: Cargo.toml text and, from the
+//!     generated src/**/*.rs, every identifier that starts a `a::b` path (token level: covers `use`
+//!     items, attributes, expressions and macro bodies) plus the declared `mod` names.
+use std::collections::{BTreeMap, BTreeSet, HashMap};
+use std::io::BufRead;
+use std::path::Path;
+use std::str::FromStr;
 
-pub fn run(_args: &[String]) {
-    eprintln!("c15: runner not implemented");
-    std::process::exit(2);
+use incan::backend::ir::scanners::{detect_async_usage, detect_serde_usage, detect_web_usage};
+use incan::frontend::ast::*;
+use serde_json::{json, Value};
+
+use crate::common::catch;
+
+// ------------------------------------------------------------------------------------------------
+// table
+// ------------------------------------------------------------------------------------------------
+
+fn lit_of(e: &syn::Expr) -> Option<String> {
+    // Some(r#"..."#.to_string())
+    match e {
+        syn::Expr::Call(c) => c.args.first().and_then(lit_of),
+        syn::Expr::MethodCall(m) => lit_of(&m.receiver),
+        syn::Expr::Lit(l) => match &l.lit {
+            syn::Lit::Str(s) => Some(s.value()),
+            _ => None,
+        },
+        syn::Expr::Block(b) => match b.block.stmts.last() {
+            Some(syn::Stmt::Expr(e, None)) => lit_of(e),
+            _ => None,
+        },
+        syn::Expr::Paren(p) => lit_of(&p.expr),
+        _ => None,
+    }
+}
+
+fn table(repo: &str) -> i32 {
+    let p = Path::new(repo).join("src/backend/project.rs");
+    let text = match std::fs::read_to_string(&p) {
+        Ok(t) => t,
+        Err(e) => {
+            println!("{}", json!({"error": format!("cannot read {}: {}", p.display(), e)}));
+            return 0;
+        }
+    };
+    let file = match syn::parse_file(&text) {
+        Ok(f) => f,
+        Err(e) => {
+            println!("{}", json!({"error": format!("parse: {}", e)}));
+            return 0;
+        }
+    };
+    let mut out: Vec<Value> = vec![];
+    let mut found = false;
+    let mut default_none = false;
+    for it in &file.items {
+        let syn::Item::Impl(im) = it else { continue };
+        for ii in &im.items {
+            let syn::ImplItem::Fn(f) = ii else { continue };
+            if f.sig.ident != "add_rust_crate" {
+                continue;
+            }
+            for st in &f.block.stmts {
+                let syn::Stmt::Local(l) = st else { continue };
+                let Some(init) = &l.init else { continue };
+                let syn::Expr::Match(m) = &*init.expr else { continue };
+                found = true;
+                for arm in &m.arms {
+                    let mut names = vec![];
+                    fn pat_names(p: &syn::Pat, out: &mut Vec<Option<String>>) {
+                        match p {
+                            syn::Pat::Lit(l) => match &l.lit {
+                                syn::Lit::Str(s) => out.push(Some(s.value())),
+                                _ => out.push(None),
+                            },
+                            syn::Pat::Or(o) => o.cases.iter().for_each(|c| pat_names(c, out)),
+                            syn::Pat::Wild(_) => out.push(None),
+                            _ => out.push(None),
+                        }
+                    }
+                    pat_names(&arm.pat, &mut names);
+                    let body = quote::ToTokens::to_token_stream(&arm.body).to_string();
+                    for n in names {
+                        match n {
+                            Some(name) => match lit_of(&arm.body) {
+                                Some(spec) if body.trim_start_matches(|c: char| c == '{' || c.is_whitespace()).starts_with("Some") => out.push(json!([name, spec])),
+                                _ => out.push(json!([name, Value::Null])),
+                            },
+                            None => {
+                                if body.trim() == "None" {
+                                    default_none = true;
+                                } else {
+                                    out.push(json!(["<default>", body]));
+                                }
+                            }
+                        }
+                    }
+                }
+            }
+        }
+    }
+    if !found {
+        println!("{}", json!({"error": "add_rust_crate: no `let .. = match crate_name {..}` found"}));
+    } else {
+        println!("{}", json!({"table": out, "default_none": default_none}));
+    }
+    0
+}
+
+// ------------------------------------------------------------------------------------------------
+// tree
+// ------------------------------------------------------------------------------------------------
+
+struct Conv {
+    call_cache: HashMap<String, i64>,
+    await_bits: i64,
+    synth_model: Option<ModelDecl>,
+}
+
+fn sp<T>(node: T) -> Spanned<T> {
+    Spanned::new(node, Span::default())
+}
+
+fn bits_of(p: &Program) -> i64 {
+    let s = catch(|| detect_serde_usage(p)).unwrap_or(false) as i64;
+    let a = catch(|| detect_async_usage(p)).unwrap_or(false) as i64;
+    let w = catch(|| detect_web_usage(p)).unwrap_or(false) as i64;
+    s | (a << 1) | (w << 2)
+}
+
+fn parse_src(src: &str) -> Result<Program, String> {
+    let toks = incan::lexer::lex(src).map_err(|e| format!("lex: {}", e.first().map(|x| x.message.clone()).unwrap_or_default()))?;
+    incan::parser::parse(&toks).map_err(|e| format!("parse: {}", e.first().map(|x| x.message.clone()).unwrap_or_default()))
+}
+
+fn node(kind: &str, tag: i64, label: &str, kids: Vec<(String, Value)>) -> Value {
+    json!([kind, tag, label, kids.into_iter().map(|(s, c)| json!([s, c])).collect::<Vec<_>>()])
+}
+
+impl Conv {
+    fn new() -> Conv {
+        let await_bits = parse_src("def f() -> None:\n  await g\n").map(|p| bits_of(&p)).unwrap_or(0);
+        let synth_model = parse_src("model M__:\n  x: int\n").ok().and_then(|p| {
+            p.declarations.into_iter().find_map(|d| if let Declaration::Model(m) = d.node { Some(m) } else { None })
+        });
+        Conv { call_cache: HashMap::new(), await_bits, synth_model }
+    }
+
+    fn call_bits(&mut self, name: &str) -> i64 {
+        if let Some(b) = self.call_cache.get(name) {
+            return *b;
+        }
+        let b = parse_src(&format!("def f() -> None:\n  {}()\n", name)).map(|p| bits_of(&p)).unwrap_or(0);
+        self.call_cache.insert(name.to_string(), b);
+        b
+    }
+
+    fn stmts(&mut self, slot: &str, body: &[Spanned<Statement>], out: &mut Vec<(String, Value)>) {
+        for s in body {
+            let v = self.stmt(&s.node);
+            out.push((slot.to_string(), v));
+        }
+    }
+
+    fn args(&mut self, slot: &str, args: &[CallArg], out: &mut Vec<(String, Value)>) {
+        for a in args {
+            match a {
+                CallArg::Positional(e) => out.push((format!("{}.pos", slot), self.expr(&e.node))),
+                CallArg::Named(_, e) => out.push((format!("{}.named", slot), self.expr(&e.node))),
+            }
+        }
+    }
+
+    fn stmt(&mut self, s: &Statement) -> Value {
+        let mut k = vec![];
+        let kind = match s {
+            Statement::Assignment(a) => {
+                k.push(("value".to_string(), self.expr(&a.value.node)));
+                "S.Assignment"
+            }
+            Statement::FieldAssignment(a) => {
+                k.push(("object".to_string(), self.expr(&a.object.node)));
+                k.push(("value".to_string(), self.expr(&a.value.node)));
+                "S.FieldAssignment"
+            }
+            Statement::IndexAssignment(a) => {
+                k.push(("object".to_string(), self.expr(&a.object.node)));
+                k.push(("index".to_string(), self.expr(&a.index.node)));
+                k.push(("value".to_string(), self.expr(&a.value.node)));
+                "S.IndexAssignment"
+            }
+            Statement::Return(e) => {
+                if let Some(e) = e {
+                    k.push(("0".to_string(), self.expr(&e.node)));
+                }
+                "S.Return"
+            }
+            Statement::If(i) => {
+                k.push(("condition".to_string(), self.expr(&i.condition.node)));
+                self.stmts("then_body", &i.then_body, &mut k);
+                for (c, b) in &i.elif_branches {
+                    k.push(("elif.cond".to_string(), self.expr(&c.node)));
+                    self.stmts("elif.body", b, &mut k);
+                }
+                if let Some(b) = &i.else_body {
+                    self.stmts("else_body", b, &mut k);
+                }
+                "S.If"
+            }
+            Statement::While(w) => {
+                k.push(("condition".to_string(), self.expr(&w.condition.node)));
+                self.stmts("body", &w.body, &mut k);
+                "S.While"
+            }
+            Statement::For(f) => {
+                k.push(("iter".to_string(), self.expr(&f.iter.node)));
+                self.stmts("body", &f.body, &mut k);
+                "S.For"
+            }
+            Statement::Expr(e) => {
+                k.push(("0".to_string(), self.expr(&e.node)));
+                "S.Expr"
+            }
+            Statement::Pass => "S.Pass",
+            Statement::Break => "S.Break",
+            Statement::Continue => "S.Continue",
+            Statement::CompoundAssignment(a) => {
+                k.push(("value".to_string(), self.expr(&a.value.node)));
+                "S.CompoundAssignment"
+            }
+            Statement::TupleUnpack(a) => {
+                k.push(("value".to_string(), self.expr(&a.value.node)));
+                "S.TupleUnpack"
+            }
+            Statement::TupleAssign(a) => {
+                for t in &a.targets {
+                    k.push(("targets".to_string(), self.expr(&t.node)));
+                }
+                k.push(("value".to_string(), self.expr(&a.value.node)));
+                "S.TupleAssign"
+            }
+            Statement::ChainedAssignment(a) => {
+                k.push(("value".to_string(), self.expr(&a.value.node)));
+                "S.ChainedAssignment"
+            }
+        };
+        node(kind, 0, "", k)
+    }
+
+    fn expr(&mut self, e: &Expr) -> Value {
+        let mut k = vec![];
+        let mut tag = 0;
+        let kind = match e {
+            Expr::Ident(_) => "E.Ident",
+            Expr::Literal(_) => "E.Literal",
+            Expr::SelfExpr => "E.SelfExpr",
+            Expr::Binary(l, _, r) => {
+                k.push(("0".to_string(), self.expr(&l.node)));
+                k.push(("2".to_string(), self.expr(&r.node)));
+                "E.Binary"
+            }
+            Expr::Unary(_, x) => {
+                k.push(("1".to_string(), self.expr(&x.node)));
+                "E.Unary"
+            }
+            Expr::Call(f, args) => {
+                let mut kind = "E.Call";
+                if let Expr::Ident(name) = &f.node {
+                    tag = self.call_bits(name);
+                    // the async scanner returns early (arguments unscanned) for surface functions
+                    if incan_core::lang::surface::functions::from_str(name.as_str()).is_some() {
+                        kind = "E.CallSurface";
+                    }
+                }
+                k.push(("0".to_string(), self.expr(&f.node)));
+                self.args("1", args, &mut k);
+                kind
+            }
+            Expr::Index(b, i) => {
+                k.push(("0".to_string(), self.expr(&b.node)));
+                k.push(("1".to_string(), self.expr(&i.node)));
+                "E.Index"
+            }
+            Expr::Slice(b, sl) => {
+                k.push(("0".to_string(), self.expr(&b.node)));
+                if let Some(x) = &sl.start {
+                    k.push(("start".to_string(), self.expr(&x.node)));
+                }
+                if let Some(x) = &sl.end {
+                    k.push(("end".to_string(), self.expr(&x.node)));
+                }
+                if let Some(x) = &sl.step {
+                    k.push(("step".to_string(), self.expr(&x.node)));
+                }
+                "E.Slice"
+            }
+            Expr::Field(b, _) => {
+                k.push(("0".to_string(), self.expr(&b.node)));
+                "E.Field"
+            }
+            Expr::MethodCall(b, _, args) => {
+                k.push(("0".to_string(), self.expr(&b.node)));
+                self.args("2", args, &mut k);
+                "E.MethodCall"
+            }
+            Expr::Await(x) => {
+                tag = self.await_bits;
+                k.push(("0".to_string(), self.expr(&x.node)));
+                "E.Await"
+            }
+            Expr::Try(x) => {
+                k.push(("0".to_string(), self.expr(&x.node)));
+                "E.Try"
+            }
+            Expr::Match(sc, arms) => {
+                k.push(("0".to_string(), self.expr(&sc.node)));
+                for a in arms {
+                    if let Some(g) = &a.node.guard {
+                        k.push(("arm.guard".to_string(), self.expr(&g.node)));
+                    }
+                    match &a.node.body {
+                        MatchBody::Expr(x) => k.push(("arm.expr".to_string(), self.expr(&x.node))),
+                        MatchBody::Block(b) => self.stmts("arm.block", b, &mut k),
+                    }
+                }
+                "E.Match"
+            }
+            Expr::If(i) => {
+                k.push(("condition".to_string(), self.expr(&i.condition.node)));
+                self.stmts("then_body", &i.then_body, &mut k);
+                if let Some(b) = &i.else_body {
+                    self.stmts("else_body", b, &mut k);
+                }
+                "E.If"
+            }
+            Expr::ListComp(c) => {
+                k.push(("expr".to_string(), self.expr(&c.expr.node)));
+                k.push(("iter".to_string(), self.expr(&c.iter.node)));
+                if let Some(f) = &c.filter {
+                    k.push(("filter".to_string(), self.expr(&f.node)));
+                }
+                "E.ListComp"
+            }
+            Expr::DictComp(c) => {
+                k.push(("key".to_string(), self.expr(&c.key.node)));
+                k.push(("value".to_string(), self.expr(&c.value.node)));
+                k.push(("iter".to_string(), self.expr(&c.iter.node)));
+                if let Some(f) = &c.filter {
+                    k.push(("filter".to_string(), self.expr(&f.node)));
+                }
+                "E.DictComp"
+            }
+            Expr::Closure(ps, b) => {
+                for p in ps {
+                    if let Some(d) = &p.node.default {
+                        k.push(("param.default".to_string(), self.expr(&d.node)));
+                    }
+                }
+                k.push(("1".to_string(), self.expr(&b.node)));
+                "E.Closure"
+            }
+            Expr::Tuple(xs) => {
+                for x in xs {
+                    k.push(("0".to_string(), self.expr(&x.node)));
+                }
+                "E.Tuple"
+            }
+            Expr::List(xs) => {
+                for x in xs {
+                    k.push(("0".to_string(), self.expr(&x.node)));
+                }
+                "E.List"
+            }
+            Expr::Set(xs) => {
+                for x in xs {
+                    k.push(("0".to_string(), self.expr(&x.node)));
+                }
+                "E.Set"
+            }
+            Expr::Dict(ps) => {
+                for (a, b) in ps {
+                    k.push(("k".to_string(), self.expr(&a.node)));
+                    k.push(("v".to_string(), self.expr(&b.node)));
+                }
+                "E.Dict"
+            }
+            Expr::Paren(x) => {
+                k.push(("0".to_string(), self.expr(&x.node)));
+                "E.Paren"
+            }
+            Expr::Constructor(_, args) => {
+                self.args("1", args, &mut k);
+                "E.Constructor"
+            }
+            Expr::FString(parts) => {
+                for p in parts {
+                    if let FStringPart::Expr(x) = p {
+                        k.push(("part".to_string(), self.expr(&x.node)));
+                    }
+                }
+                "E.FString"
+            }
+            Expr::Yield(x) => {
+                if let Some(x) = x {
+                    k.push(("0".to_string(), self.expr(&x.node)));
+                }
+                "E.Yield"
+            }
+            Expr::Range { start, end, .. } => {
+                k.push(("start".to_string(), self.expr(&start.node)));
+                k.push(("end".to_string(), self.expr(&end.node)));
+                "E.Range"
+            }
+        };
+        node(kind, tag, "", k)
+    }
+
+    fn method(&mut self, m: &MethodDecl) -> Value {
+        // trigger bits of the method alone: inside a synthetic model (a scanned position)
+        let mut tag = 0;
+        if let Some(sm) = &self.synth_model {
+            let mut mm = sm.clone();
+            let mut only = m.clone();
+            only.body = Some(vec![]);
+            only.params = vec![];
+            mm.methods = vec![sp(only)];
+            tag = bits_of(&Program { declarations: vec![sp(Declaration::Model(mm))] });
+        }
+        let mut k = vec![];
+        for p in &m.params {
+            if let Some(d) = &p.node.default {
+                k.push(("param.default".to_string(), self.expr(&d.node)));
+            }
+        }
+        if let Some(b) = &m.body {
+            self.stmts("body", b, &mut k);
+        }
+        node("D.Method", tag, "", k)
+    }
+
+    fn decl(&mut self, d: &Declaration) -> (String, Value) {
+        match d {
+            Declaration::Import(i) => {
+                let tag = bits_of(&Program { declarations: vec![sp(d.clone())] });
+                match &i.kind {
+                    ImportKind::RustCrate { crate_name, .. } | ImportKind::RustFrom { crate_name, .. } => {
+                        ("decl.rust_import".to_string(), node("D.RustImport", tag, crate_name, vec![]))
+                    }
+                    _ => ("decl.import".to_string(), node("D.Import", tag, "", vec![])),
+                }
+            }
+            Declaration::Const(c) => {
+                let k = vec![("value".to_string(), self.expr(&c.value.node))];
+                ("decl.const".to_string(), node("D.Const", 0, "", k))
+            }
+            Declaration::Model(m) => {
+                let mut alone = m.clone();
+                alone.methods = vec![];
+                for f in alone.fields.iter_mut() {
+                    f.node.default = None;
+                }
+                let tag = bits_of(&Program { declarations: vec![sp(Declaration::Model(alone))] });
+                let mut k = vec![];
+                for f in &m.fields {
+                    if let Some(dv) = &f.node.default {
+                        k.push(("field.default".to_string(), self.expr(&dv.node)));
+                    }
+                }
+                for me in &m.methods {
+                    k.push(("methods".to_string(), self.method(&me.node)));
+                }
+                ("decl.model".to_string(), node("D.Model", tag, "", k))
+            }
+            Declaration::Class(c) => {
+                let mut alone = c.clone();
+                alone.methods = vec![];
+                for f in alone.fields.iter_mut() {
+                    f.node.default = None;
+                }
+                let tag = bits_of(&Program { declarations: vec![sp(Declaration::Class(alone))] });
+                let mut k = vec![];
+                for f in &c.fields {
+                    if let Some(dv) = &f.node.default {
+                        k.push(("field.default".to_string(), self.expr(&dv.node)));
+                    }
+                }
+                for me in &c.methods {
+                    k.push(("methods".to_string(), self.method(&me.node)));
+                }
+                ("decl.class".to_string(), node("D.Class", tag, "", k))
+            }
+            Declaration::Trait(t) => {
+                let mut k = vec![];
+                for me in &t.methods {
+                    k.push(("methods".to_string(), self.method(&me.node)));
+                }
+                ("decl.trait".to_string(), node("D.Trait", 0, "", k))
+            }
+            Declaration::Newtype(n) => {
+                let mut k = vec![];
+                for me in &n.methods {
+                    k.push(("methods".to_string(), self.method(&me.node)));
+                }
+                ("decl.newtype".to_string(), node("D.Newtype", 0, "", k))
+            }
+            Declaration::Enum(_) => ("decl.enum".to_string(), node("D.Enum", 0, "", vec![])),
+            Declaration::Function(f) => {
+                let mut alone = f.clone();
+                alone.body = vec![];
+                alone.params = vec![];
+                let tag = bits_of(&Program { declarations: vec![sp(Declaration::Function(alone))] });
+                let mut k = vec![];
+                for p in &f.params {
+                    if let Some(dv) = &p.node.default {
+                        k.push(("param.default".to_string(), self.expr(&dv.node)));
+                    }
+                }
+                self.stmts("body", &f.body, &mut k);
+                ("decl.function".to_string(), node("D.Function", tag, "", k))
+            }
+            Declaration::Docstring(_) => ("decl.docstring".to_string(), node("D.Docstring", 0, "", vec![])),
+        }
+    }
+
+    fn program(&mut self, p: &Program) -> Value {
+        let mut k = vec![];
+        for d in &p.declarations {
+            k.push(self.decl(&d.node));
+        }
+        node("Program", 0, "", k)
+    }
+}
+
+fn scan() -> i32 {
+    let mut conv = Conv::new();
+    let stdin = std::io::stdin();
+    for line in stdin.lock().lines() {
+        let Ok(line) = line else { break };
+        if line.trim().is_empty() {
+            continue;
+        }
+        let v: Value = match serde_json::from_str(&line) {
+            Ok(v) => v,
+            Err(e) => {
+                println!("{}", json!({"ok": false, "err": format!("bad case json: {}", e)}));
+                continue;
+            }
+        };
+        let src = v["src"].as_str().unwrap_or("");
+        let r = catch(|| parse_src(src));
+        match r {
+            Ok(Ok(p)) => {
+                let tree = conv.program(&p);
+                let real = [
+                    catch(|| detect_serde_usage(&p)).unwrap_or(false),
+                    catch(|| detect_async_usage(&p)).unwrap_or(false),
+                    catch(|| detect_web_usage(&p)).unwrap_or(false),
+                ];
+                let crates = incan::cli::commands::collect_rust_crates(&p);
+                println!("{}", json!({"ok": true, "tree": tree, "real": real, "crates": crates}));
+            }
+            Ok(Err(e)) => println!("{}", json!({"ok": false, "err": e})),
+            Err(p) => println!("{}", json!({"ok": false, "err": format!("panic: {}", p)})),
+        }
+    }
+    0
+}
+
+// ------------------------------------------------------------------------------------------------
+// build + inspect
+// ------------------------------------------------------------------------------------------------
+
+fn walk_tokens(ts: proc_macro2::TokenStream, roots: &mut BTreeSet<String>, mods: &mut BTreeSet<String>) {
+    use proc_macro2::TokenTree as TT;
+    let toks: Vec<TT> = ts.into_iter().collect();
+    let is_colon2 = |i: usize| -> bool {
+        matches!((toks.get(i), toks.get(i + 1)), (Some(TT::Punct(a)), Some(TT::Punct(b))) if a.as_char() == ':' && b.as_char() == ':' && a.spacing() == proc_macro2::Spacing::Joint)
+    };
+    for i in 0..toks.len() {
+        match &toks[i] {
+            TT::Group(g) => walk_tokens(g.stream(), roots, mods),
+            TT::Ident(id) => {
+                let name = id.to_string();
+                if name == "mod" {
+                    if let (Some(TT::Ident(m)), Some(TT::Punct(p))) = (toks.get(i + 1), toks.get(i + 2)) {
+                        if p.as_char() == ';' || p.as_char() == '{' {
+                            mods.insert(m.to_string());
+                        }
+                    }
+                }
+                if is_colon2(i + 1) {
+                    // start of a path? not if preceded by `::` or `.`
+                    let preceded = i >= 2 && is_colon2(i - 2);
+                    let dotted = i >= 1 && matches!(&toks[i - 1], TT::Punct(p) if p.as_char() == '.');
+                    if !preceded && !dotted {
+                        roots.insert(name.trim_start_matches("r#").to_string());
+                    }
+                }
+            }
+            _ => {}
+        }
+    }
+}
+
+fn rs_files(dir: &Path, out: &mut Vec<std::path::PathBuf>) {
+    let Ok(rd) = std::fs::read_dir(dir) else { return };
+    let mut es: Vec<_> = rd.flatten().map(|e| e.path()).collect();
+    es.sort();
+    for p in es {
+        if p.is_dir() {
+            rs_files(&p, out);
+        } else if p.extension().is_some_and(|e| e == "rs") {
+            out.push(p);
+        }
+    }
+}
+
+fn build() -> i32 {
+    let stdin = std::io::stdin();
+    for line in stdin.lock().lines() {
+        let Ok(line) = line else { break };
+        if line.trim().is_empty() {
+            continue;
+        }
+        let v: Value = serde_json::from_str(&line).unwrap_or(Value::Null);
+        let entry = v["entry"].as_str().unwrap_or("").to_string();
+        let out = v["out"].as_str().unwrap_or("").to_string();
+        let _ = std::fs::remove_dir_all(&out);
+        let r = catch(|| incan::cli::commands::build_file(&entry, Some(&out)));
+        let (ok, err) = match r {
+            Ok(Ok(code)) => (code.0 == 0, String::new()),
+            Ok(Err(e)) => (false, e.message),
+            Err(p) => (false, format!("panic: {}", p)),
+        };
+        let manifest = std::fs::read_to_string(Path::new(&out).join("Cargo.toml")).ok();
+        let mut roots = BTreeSet::new();
+        let mut mods = BTreeSet::new();
+        let mut files: BTreeMap<String, usize> = BTreeMap::new();
+        let mut unparsed = vec![];
+        let mut fs = vec![];
+        rs_files(&Path::new(&out).join("src"), &mut fs);
+        for f in fs {
+            let rel = f.strip_prefix(&out).unwrap_or(&f).to_string_lossy().to_string();
+            let Ok(text) = std::fs::read_to_string(&f) else { continue };
+            files.insert(rel.clone(), text.len());
+            if syn::parse_file(&text).is_err() {
+                unparsed.push(rel.clone());
+            }
+            match proc_macro2::TokenStream::from_str(&text) {
+                Ok(ts) => walk_tokens(ts, &mut roots, &mut mods),
+                Err(_) => unparsed.push(rel),
+            }
+        }
+        println!(
+            "@@C15 {}",
+            json!({"ok": ok, "err": err, "manifest": manifest, "roots": roots, "mods": mods, "files": files, "unparsed": unparsed})
+        );
+    }
+    0
+}
+
+pub fn run(args: &[String]) {
+    let code = match args.first().map(|s| s.as_str()).unwrap_or("") {
+        "table" => table(args.get(1).map(|s| s.as_str()).unwrap_or("/repo")),
+        "scan" => scan(),
+        "build" => build(),
+        other => {
+            eprintln!("c15: unknown mode {:?} (table|scan|build)", other);
+            2
+        }
+    };
+    std::process::exit(code);
 }
